@@ -1,7 +1,8 @@
 (* C07 -- the generated model instantiated over Q for the correspondence check:
    I and J are finite tables keyed by (phase, a, b), math.log is a rational stand-in
    (x - c) / d on x > 0.  Executable definitions only. *)
-From V Require Import Common.Num C07.Model C07.Gen_FreeEnergy C07.Gen_InitEnergies C07.Gen_MixtureModels C07.Gen_InitData.
+From V Require Import Common.Num C07.Model C07.Gen_FreeEnergy C07.Gen_InitEnergies C07.Gen_MixtureModels C07.Gen_InitData
+     C07.Gen_Rewire C07.Rewire.
 Open Scope Q_scope.
 
 Definition QOps (lnc lnd : Q) : Ops Q :=
@@ -125,3 +126,76 @@ Definition sp_TP lnc lnd (vals : list (pyv Q)) (mol : list Q) T P : pyv Q :=
 (* Chemical._init_data: the derived entropy of fusion, from the caller's arguments and the stored values *)
 Definition sfus_case (aH aT sH sT : option Q) (expected : pyv Q) : bool :=
   pyv_approxb (init_data_Sfus (mix_env 0 1) aH aT sH sT) expected.
+
+(* ---- histories of copy / copy_models_from / at_state / setters over real chemicals whose heat-capacity
+        handles have a constant user method (content = the constant per phase, None = no method) ---- *)
+Definition qcc : Type := (option Q * option Q * option Q)%type.      (* constants of Cn.s, Cn.l, Cn.g *)
+Definition cc_get (c : qcc) (ph : phase) : option Q :=
+  match ph with Ps => fst (fst c) | Pl => snd (fst c) | Pg => snd c end.
+Definition cc_set (c : qcc) (ph : phase) (v : option Q) : qcc :=
+  match ph with Ps => (v, snd (fst c), snd c) | Pl => (fst (fst c), v, snd c) | Pg => (fst c, v) end.
+Definition oq_eqb (a b : option Q) : bool := opt_eqb Qeq_bool a b.
+Definition cc_eqb (a b : qcc) : bool :=
+  oq_eqb (cc_get a Ps) (cc_get b Ps) && oq_eqb (cc_get a Pl) (cc_get b Pl) && oq_eqb (cc_get a Pg) (cc_get b Pg).
+Record qsc : Type := mkSc { q_Tm : option Q; q_Tb : option Q; q_Hfus : option Q; q_Sfus : option Q; q_S0 : option Q }.
+
+(* copy_models_from, key '_Cn' (_chemical.py:2019-2043): which handles are replaced by copies of the other's *)
+Definition qmerge (ka kb : cnkind) (ca cb : qcc) : qcc :=
+  match ka, kb with
+  | CnHandle, CnHandle => cb
+  | CnLocked sp, CnHandle => cc_set ca sp (cc_get cb sp)
+  | CnLocked sp, CnLocked sp' => cc_set ca sp (cc_get cb sp')
+  | CnHandle, CnLocked sp' => cc_set ca sp' (cc_get cb sp')
+  | _, _ => ca
+  end.
+
+(* integrals of a handle with constant c: table keyed by (c, a, b), harvested from the real handle objects *)
+Definition ctab := list (Q * Q * Q * Q).
+Fixpoint clookup (t : ctab) (c a b : Q) : res Q :=
+  match t with
+  | [] => Err EKey
+  | (k, x, y, v) :: t' => if Qeq_bool k c && Qeq_bool x a && Qeq_bool y b then Ok v else clookup t' c a b
+  end.
+
+Definition hinputs := inputs qcc (option Q) qsc.
+Definition hchem := chem qcc (option Q) qsc.
+Definition hop := op qcc (option Q) qsc.
+Definition d0cc : qcc := (None, None, None).
+
+Definition henv lnc lnd (tI tJ : ctab) (i : hinputs) : env Q :=
+  mkEnv Q (QOps lnc lnd)
+    (fun ph a b => match cc_get (i_cn _ _ _ i) ph with Some c => clookup tI c a b | None => Err EOther end)
+    (fun ph a b => match cc_get (i_cn _ _ _ i) ph with Some c => clookup tJ c a b | None => Err EOther end)
+    Rgas_value.
+Definition hdata (i : hinputs) : chemdata Q :=
+  let sc := i_sc _ _ _ i in
+  mkChem Q (Some (2622555134571315 # 8796093022208)) (Some 101325) (Some 0) (q_S0 sc) (q_Hfus sc) (q_Sfus sc) (q_Tm sc) (q_Tb sc)
+         (match i_hv _ _ _ i with Some v => Some (fun _ => Some v) | None => None end)
+         (fun ph => match cc_get (i_cn _ _ _ i) ph with Some _ => true | None => false end).
+
+(* what is observed of a chemical: its functors applied to a query.  When the handle objects the functors refer
+   to no longer have the content they were built with (possible only if two chemicals share handle objects),
+   the result mixes old constants with new integrals: outside the model, reported as EOther *)
+Definition hobserve lnc lnd tI tJ (h : list qcc) (c : hchem) (q : query) : pyv Q :=
+  let i := w_in _ _ _ c in
+  if cc_eqb (hget qcc d0cc h (w_cn _ _ _ c)) (i_cn _ _ _ i) then
+    do hs <- init_energies (henv lnc lnd tI tJ i) (hdata i) (i_kind _ _ _ i) (i_pr _ _ _ i);
+    match q with
+    | QH ph T P => call_handle (fst hs) ph T P
+    | QS ph T P => call_handle (snd hs) ph T P
+    end
+  else Err EOther.
+
+Definition hstate0 (specs : list (phase * qsc * option Q * qcc)) : state qcc (option Q) qsc :=
+  let h := map (fun x => snd x) specs in
+  (h, map (fun kx => let '(k, (p, sc, hv, _)) := kx in fresh qcc (option Q) qsc d0cc h CnHandle p sc hv k)
+          (combine (seq 0 (length specs)) specs)).
+
+Definition set_Tm (v : Q) (s : qsc) := mkSc (Some v) (q_Tb s) (q_Hfus s) (q_Sfus s) (q_S0 s).
+Definition set_Tb (v : Q) (s : qsc) := mkSc (q_Tm s) (Some v) (q_Hfus s) (q_Sfus s) (q_S0 s).
+Definition set_Hfus (v : Q) (s : qsc) := mkSc (q_Tm s) (q_Tb s) (Some v) (q_Sfus s) (q_S0 s).
+Definition set_Sfus (v : Q) (s : qsc) := mkSc (q_Tm s) (q_Tb s) (q_Hfus s) (Some v) (q_S0 s).
+
+Definition hist_case lnc lnd tI tJ specs (ops : list hop) (qs : list query) (expected : list (list (pyv Q))) : bool :=
+  let s := run qcc (option Q) qsc d0cc qmerge (hstate0 specs) ops in
+  list_eqb pyvs_approxb (map (fun c => map (hobserve lnc lnd tI tJ (fst s) c) qs) (snd s)) expected.
